@@ -96,7 +96,7 @@ class Harness:
             if seg.isdigit():
                 v = v.fields[int(seg)]
             else:
-                v = v.fields[self.mir.struct_fields[v.ty].index(seg)]
+                v = v.fields[self.mir.field_index(v.ty, seg, len(v.fields))]
         return v
 
     def new_state(self):
